@@ -184,7 +184,7 @@ def main():
     work = "/dev/shm/bbsim_mut.%d" % os.getpid()
     report = {}
     ok = True
-    RUNS = {"C07": 1200, "C12": 1600, "C13": 1600, "C19": 600}
+    RUNS = {"C07": 1200, "C12": 1200, "C13": 1600, "C19": 600}
     try:
         jobs = []
         if a.patch:
